@@ -14,7 +14,8 @@ RULE = (
     "1-5 valid and 0-3 missing elements per dimension anywhere in the payload, typedef "
     "'order', dyadic weights incl. zeros). A case is non-trivial when every dimension has >= 2 "
     "valid elements, N >= 5 and at least one missing category / missing answer is present. "
-    "Distinct = distinct sha256 of the complete case." % (
+    "In half of the cases every public property of a partition is read, in random order, "
+    "before its tabulations. Distinct = distinct sha256 of the complete case." % (
         len(cases.TEMPLATES_1D) + len(cases.TEMPLATES_2D) + len(cases.TEMPLATES_3D) + 1))
 ASSUMPTIONS = [
     "the response builder (vlib/sim.py) lays tensors out as the Crunch back end does "
